@@ -249,6 +249,24 @@ func GenAlert(t *rapid.T, pool []TripDesc, o GenOpts) *Alert {
 	for i := 0; i < ns; i++ {
 		a.Informed = append(a.Informed, GenSelector(t, pool, o.Zone, o.NoPartialDescriptors))
 	}
+	// the same trip_id on another service day, at another start time or in another direction is another trip: a selector
+	// that repeats an earlier selector's trip_id with one of those changed (the runs of one trip on two days, say)
+	for i := 0; i < len(a.Informed) && len(a.Informed) < ns+3; i++ {
+		d := a.Informed[i].Trip
+		if d == nil || d.TripID == nil || rapid.IntRange(0, 3).Draw(t, "tripVariant?") != 0 {
+			continue
+		}
+		v := *d
+		switch rapid.IntRange(0, 2).Draw(t, "tripVariantKind") {
+		case 0:
+			v.StartDate = P(GenDate(t, "variantDate", o.Zone))
+		case 1:
+			v.StartTime = P(genHMS(t, "variantTime"))
+		default:
+			v.Direction = P(uint32(rapid.IntRange(0, 1).Draw(t, "variantDir")))
+		}
+		a.Informed = append(a.Informed, Selector{Trip: &v})
+	}
 	a.Cause = opt(t, "cause", gCause)
 	a.Effect = opt(t, "effect", gEffect)
 	a.Header = genTranslations(t, "header")
@@ -364,7 +382,7 @@ func GenMsg(t *rapid.T, o GenOpts) (*Msg, MsgInfo) {
 		e Entity
 	}
 	var ents []Entity
-	tuVeh := make([]bool, nT)  // trip update carries the vehicle descriptor
+	tuVeh := make([]bool, nT)     // trip update carries the vehicle descriptor
 	vpTrip := make([]bool, nV+nI) // vehicle position carries the trip descriptor
 	for ti := 0; ti < nT; ti++ {
 		tripHasTU[ti] = rapid.IntRange(0, 3).Draw(t, "tripHasTU") != 0
